@@ -24,17 +24,18 @@ type Result struct {
 	Sig     string `json:"sig,omitempty"`
 	Msg     string `json:"msg,omitempty"`
 	// measurements
-	ConvergeMs  int64            `json:"converge_ms"` // last write/event -> first time every replica equalled the primary
-	BoundMs     int64            `json:"bound_ms"`
-	WorkMs      int64            `json:"work_ms"` // duration of the write phases incl. pauses
-	MaxWriteUs  int64            `json:"max_write_us"`
-	PrimaryWALs int              `json:"primary_wal_files"`
-	PrimarySeq  uint64           `json:"primary_seq"`
-	LiveKeys    int              `json:"live_keys"`
-	Replicas    []map[string]any `json:"replicas,omitempty"`
-	Sessions    int              `json:"primary_sessions"`
-	WaitMisses  int              `json:"wait_misses,omitempty"`
-	Regressions int              `json:"regressions,omitempty"` // equal, then different again 2 s later, before settling
+	ConvergeMs      int64            `json:"converge_ms"` // last write/event -> first time every replica equalled the primary
+	BoundMs         int64            `json:"bound_ms"`
+	WorkMs          int64            `json:"work_ms"` // duration of the write phases incl. pauses
+	MaxWriteUs      int64            `json:"max_write_us"`
+	PrimaryWALs     int              `json:"primary_wal_files"`
+	PrimarySeq      uint64           `json:"primary_seq"`
+	LiveKeys        int              `json:"live_keys"`
+	Replicas        []map[string]any `json:"replicas,omitempty"`
+	Sessions        int              `json:"primary_sessions"`
+	WaitMisses      int              `json:"wait_misses,omitempty"`
+	Regressions     int              `json:"regressions,omitempty"` // equal, then different again 2 s later, before settling
+	ApplyFaultFired bool             `json:"apply_fault_fired,omitempty"`
 }
 
 // ChildSpec is the input of a child.
@@ -154,6 +155,7 @@ func runCase(spec *ChildSpec) *Result {
 		return infra("%v", err)
 	}
 	reps := make([]*Node, len(c.Replicas))
+	var faults []*applyFault
 	waitSession := func(n *Node) {
 		for dl := time.Now().Add(10 * time.Second); time.Now().Before(dl); time.Sleep(5 * time.Millisecond) {
 			if hasSession(prim.Mgr, n.Addr) {
@@ -175,7 +177,12 @@ func runCase(spec *ChildSpec) *Result {
 				}
 			}
 			if rp.JoinAt == boundary {
-				n, err := startReplica(name, mkdir(spec.Base, name), rp.Cfg, prim.Addr, fmt.Sprintf("replica-%d.test:7000", i), nil)
+				var af *applyFault
+				if rp.FailApplyAt > 0 && !rp.FailAfterRestart {
+					af = &applyFault{At: int64(rp.FailApplyAt)}
+					faults = append(faults, af)
+				}
+				n, err := startReplica(name, mkdir(spec.Base, name), rp.Cfg, prim.Addr, fmt.Sprintf("replica-%d.test:7000", i), nil, af)
 				if err != nil {
 					return infra("%v", err)
 				}
@@ -185,6 +192,10 @@ func runCase(spec *ChildSpec) *Result {
 				}
 			}
 			if rp.UpAgainAt == boundary && reps[i] != nil && !reps[i].Joined {
+				if rp.FailApplyAt > 0 && rp.FailAfterRestart {
+					reps[i].ApplyFault = &applyFault{At: int64(rp.FailApplyAt)}
+					faults = append(faults, reps[i].ApplyFault)
+				}
 				if err := reps[i].restartReplica(prim.Addr, nil); err != nil {
 					// a replica that cannot reopen its own database after a clean
 					// stop is a defect, but of the engine, not of replication
@@ -250,6 +261,11 @@ func runCase(spec *ChildSpec) *Result {
 		res.Sessions = len(sessions(prim.Mgr))
 		if m, _ := filepath.Glob(filepath.Join(prim.Dir, "wal", "*.wal")); m != nil {
 			res.PrimaryWALs = len(m)
+		}
+		for _, f := range faults {
+			if f.fired.Load() {
+				res.ApplyFaultFired = true
+			}
 		}
 		res.Replicas = nil
 		for _, n := range reps {
@@ -359,6 +375,11 @@ func cause(c *Case, res *Result, idx int) string {
 		}
 	}
 	add(bulk, "bulk")
+	add(c.Shape == "aged_burst", "agedburst")
+	add(c.Shape == "aged_burst" && c.FastHeartbeat, "fasthb")
+	if idx >= 0 && idx < len(c.Replicas) {
+		add(c.Replicas[idx].FailApplyAt > 0, "applyfault")
+	}
 	if idx >= 0 && idx < len(c.Replicas) {
 		rp := c.Replicas[idx]
 		add(rp.RestartAt >= 0, "restart")
